@@ -72,6 +72,7 @@ fn worker(args: &[String]) {
         libc::umask(0o022);
     }
     silence_panics();
+    install_crash_handler();
     LIVE_LIMIT.store(3usize << 30, std::sync::atomic::Ordering::SeqCst);
     start_watchdog(format!("{}.stall", out), 20.0, 90.0);
     let p = props::registry().into_iter().find(|p| p.id == prop).expect("unknown property");
